@@ -458,7 +458,7 @@ def run(ck, ctx):
     def r094c():
         from .eas_ctx import EasCtx, EAS_PARAMS
         from ..facets.lenclass import LenClass, is_def
-        E = EasCtx(ctx)
+        E = EasCtx(ctx, allow_different_runs=True)       # every invocation is looked at on its own below
         J = E.I
         batch = [c for c in J.call_log if c[0].qualname == "CphotAng.__call__"]
         ck.floor("R09.4", len(batch), 1, "batch invocations of the kernel from the optical stage")
